@@ -458,7 +458,7 @@ func (t *threads) Subjects() []*subject {
 			if st, ok := o.Type().Underlying().(*types.Struct); ok {
 				for i := 0; i < st.NumFields(); i++ {
 					if isContainerType(st.Field(i).Type()) {
-						get(n+"."+st.Field(i).Name(), n, false)
+						get(n+"."+fvName(st.Field(i)), n, false)
 					}
 				}
 			}
@@ -582,7 +582,7 @@ func (t *threads) FieldSubjects() []*subject {
 			if _, isChan := f.Type().Underlying().(*types.Chan); isChan {
 				continue // channels synchronise themselves; the field is set at construction
 			}
-			subs[n+"."+f.Name()] = &subject{Name: n + "." + f.Name(), Type: n}
+			subs[n+"."+fvName(f)] = &subject{Name: n + "." + fvName(f), Type: n}
 		}
 	}
 	for _, fn := range w.All {
